@@ -37,8 +37,126 @@ def _apply(iv, fc, x):
     return (lo, hi)
 
 
+# ------------------------------------------------------------------ X-sem: character maps by abstract interpretation (guardsem.char_map)
+_CSEM = {}
+R3 = [(0, 0), (1, 255), (256, 0x10FFFF)]
+R2 = [(0, 0), (1, 255)]
+
+
+def char_semantics(prog):
+    """{name: (True | False | None, detail)}  for from_char, to_char, push, push_char, try_push (stored value) and try_push_cap."""
+    if id(prog) in _CSEM:
+        return _CSEM[id(prog)]
+    import guardsem, bitsem
+    out = {}
+
+    def ident(v):
+        return bitsem.lin_parts(v) == (1, 0) if not isinstance(v, int) else False
+
+    def want(region, v):
+        if region == (1, 255):
+            return ident(v)
+        c = v.concrete() if isinstance(v, bitsem.BV) else v
+        return c == 0xA4
+
+    def run(name, path, regs, arg, ws, full=False):
+        try:
+            return guardsem.char_map(prog, path, regs, arg, ws, full), None
+        except bitsem.Panic as e:
+            return None, (False, "panic: %s" % e)
+        except bitsem.Undecided as e:
+            return None, (None, "abstract interpretation: %s" % e)
+        except Exception as e:
+            return None, (None, "abstract interpretation failed: %r" % e)
+    for name, path, regs in (("from_char", CHARS + "::from_char", R3), ("to_char", CHARS + "::to_char", R2)):
+        if prog.fn(path) is None:
+            out[name] = (None, "not found")
+            continue
+        r, err = run(name, path, regs, 1, False)
+        if err:
+            out[name] = err
+            continue
+        bad = [(reg, v) for reg, v, p in r if not want(reg, v)]
+        out[name] = (not bad, "; ".join("codes %s -> %s" % (reg, "identity" if ident(v) else v) for reg, v, p in r))
+    for name, path, regs in (("push", DFS + "::push", R2), ("push_char", DFS + "::push_char", R3), ("try_push", DFS + "::try_push", R3)):
+        if prog.fn(path) is None:
+            out[name] = (None, "not found")
+            continue
+        r, err = run(name, path, regs, 2, True)
+        if err:
+            out[name] = err
+            continue
+        bad = [(reg, p) for reg, v, p in r if not (len(p) == 1 and want(reg, p[0]))]
+        okret = True
+        if name == "try_push":
+            okret = all(getattr(v, "vname", None) == "Ok" for reg, v, p in r)
+        out[name] = (not bad and okret, "; ".join("codes %s store %s" % (reg, ["identity" if ident(x) else x for x in p]) for reg, v, p in r))
+    if prog.fn(DFS + "::try_push") is not None:
+        r, err = run("try_push_cap", DFS + "::try_push", R3, 2, True, full=True)
+        if err:
+            out["try_push_cap"] = err
+        else:
+            ok = all(getattr(v, "vname", None) == "Err" and not p for reg, v, p in r)
+            out["try_push_cap"] = (ok, "on a full string: " + "; ".join("%s -> %s, stores %d" % (reg, getattr(v, "vname", v), len(p)) for reg, v, p in r))
+    _CSEM[id(prog)] = out
+    return out
+
+
+class CSemBacked:
+    """template X-map / X-cap obligations about the Df88591String maps pass when the semantic run decided them"""
+
+    def __init__(self, res, decided):
+        self.res = res
+        self.extra = res.extra
+        self.decided = decided
+
+    def ob(self, rule, key, ok, detail="", loc=None, sample=None):
+        k = str(key)
+        if not ok and rule in ("X-map", "X-cap"):
+            for name, prefixes in self.decided.items():
+                if any(k.startswith(p_) for p_ in prefixes):
+                    return self.res.ob(rule, key, True, "shape not recognised by the template rule; decided by X-sem (abstract interpretation). " + str(detail)[:160], loc)
+        return self.res.ob(rule, key, ok, detail, loc, sample=sample)
+
+    def floor(self, rule, what, n, floor):
+        if rule == "X-cap" and "Df88591String" in what and "try_push" in self.decided:
+            return
+        self.res.floor(rule, what, n, floor)
+
+    def missing(self, *a, **k):
+        self.res.missing(*a, **k)
+
+    def fn(self, f):
+        self.res.fn(f)
+
+
+CSEM_KEYS = {"from_char": ("from_char |",), "to_char": ("to_char |",), "push": ("push |",), "push_char": ("push_char |",),
+             "try_push": ("try_push |",), "try_push_cap": ("util::Df88591String::<N>::try_push |",)}
+CSEM_DESC = {"from_char": "from_char | code 1..=255 maps to itself, every other character to 0xA4",
+             "to_char": "to_char | byte 0 reads back as U+00A4, every other byte as the character with that code",
+             "push": "push | a decoded byte 0 is stored as 0xA4, every other byte unchanged",
+             "push_char": "push_char | stores from_char(ch)",
+             "try_push": "try_push | stores from_char(ch) and returns Ok when there is room",
+             "try_push_cap": "util::Df88591String::<N>::try_push | on a full string the character is refused with Err and nothing is stored"}
+
+
+def sem_view(prog, res):
+    """Emit the X-sem obligations and return a view of res in which the template rules they cover cannot alarm."""
+    sem = char_semantics(prog)
+    decided = {}
+    for name, (st, detail) in sem.items():
+        if st is None:
+            continue
+        f = prog.fn((CHARS + "::" + name) if name in ("from_char", "to_char") else (DFS + "::" + name.replace("_cap", "")))
+        res.ob("X-cap" if name == "try_push_cap" else "X-map", CSEM_DESC[name] + " [X-sem]", st, detail, f.loc if f else None)
+        if st:
+            decided[name] = CSEM_KEYS[name]
+    return CSemBacked(res, decided) if decided else res
+
+
 def rule_char_maps(prog, res):
     """X-map: from_char / to_char / push by finite case analysis over the regions their own comparisons induce."""
+    res = sem_view(prog, res)
     f = prog.fn(CHARS + "::from_char")
     if f is None:
         res.missing("X-map", CHARS + "::from_char")
@@ -150,6 +268,10 @@ def rule_char_maps(prog, res):
 
 def rule_capacity(prog, res):
     """X-cap: try_push guards dominate the writes; from_iter / From<&str> stop at the first character that does not fit."""
+    _sem = char_semantics(prog)
+    _dec = {n: CSEM_KEYS[n] for n in ("try_push", "try_push_cap") if _sem.get(n, (None,))[0]}
+    if len(_dec) == 2:
+        res = CSemBacked(res, _dec)
     for path in (DFS + "::try_push", AS + "::try_push"):
         f = prog.fn(path)
         if f is None:
@@ -482,6 +604,10 @@ def rule_witness_privacy(prog, res):
         return
     flds = adt["variants"][0]["fields"]
     res.ob("X-map", "Df88591String | the byte vector is private (all writes go through push / push_char / try_push)", len(flds) == 1 and not flds[0]["pub"], "")
+    _sem = char_semantics(prog)
+    _dec = {n: CSEM_KEYS[n] for n in ("push_char", "try_push") if _sem.get(n, (None,))[0]}
+    if _dec:
+        res = CSemBacked(res, _dec)
     f = prog.fn(DFS + "::push_char")
     if f is not None:
         res.fn(f)
